@@ -202,6 +202,19 @@ def run_main(rec, seed, shard, nshards, tier):
     core.hyp_run(rec, prop, cases(), n, seed)
 
 
+# ---------------------------------------------------------------- scale: lists of 10^5 passwords (written with count prefixes)
+def run_big(rec, seed, shard, nshards, tier):
+    """Training lists as large as real leaks, written with count prefixes so that they stay small files: a length, an initial
+    n-gram and a transition that each occur ONCE among 70 000 .. 400 000 passwords (smoothed probabilities below e^-11)."""
+    for total in {'quick': [70000], 'thorough': [70000, 400000]}[tier]:      # the trainer works through a count prefix one password at a time
+        half = total // 2
+        case = {'entries': [['abcdabcd', half], ['abcdabc', total - half - 3], ['abcdabcdabc', 1], ['dcbadcba', 1], ['abcdabca', 1]],
+                'encoding': 'utf-8', 'ngram': 3, 'alphabet_size': 100, 'spelling': 'prefix', 'style': 'big_counts'}
+        rec.cls('list_of_%d_passwords' % total)
+        prop(case, rec)
+
+
 PARTS = [
+    Part('big_counts', run_big, prop, {'quick': 1, 'thorough': 1}),
     Part('three_way_levels', run_main, prop, {'quick': 8, 'thorough': 16}),
 ]
